@@ -21,12 +21,24 @@ def _alarm(*_a):
     raise _Hang()
 
 
+def _fr(fr):
+    return f"{fr.filename.split('/norminette/')[-1]}::{fr.name}::{' '.join((fr.line or '').split())[:70]}"
+
+
 def site_of(tb, repo="/repo/"):
+    """innermost /repo frame; if that is a shared helper (not a rule module), also the innermost rule frame
+    that called it -- the defect site is the caller that passes the bad index / missing token"""
     frames = [f for f in traceback.extract_tb(tb) if repo in f.filename]
     if not frames:
         return "?"
-    fr = frames[-1]
-    return f"{fr.filename.split('/norminette/')[-1]}::{fr.name}::{' '.join((fr.line or '').split())[:70]}"
+    inner = frames[-1]
+    s = _fr(inner)
+    if "/rules/" not in inner.filename:
+        for fr in reversed(frames[:-1]):
+            if "/rules/" in fr.filename:
+                s += " <- " + _fr(fr)
+                break
+    return s
 
 
 def serve():
